@@ -41,13 +41,13 @@ func lexStrings(k int) []string {
 
 // ---- route layout family ---------------------------------------------------------
 
-// layoutPrograms enumerates every sequence of at most three route groups with at
-// most three routes in total. A group is a bare route, `channel /path {…}`
+// layoutPrograms enumerates every sequence of at most maxGroups route groups with at
+// most maxRoutes routes in total (3 / 3 in the quick tier, 4 / 4 in the thorough tier). A group is a bare route, `channel /path {…}`
 // (single-route shorthand) or `channel { … }` (wrapper) with 0, 1 or 2 routes,
 // for every channel type; every route path is written bare and quoted. Route
 // bodies follow the channel (outbound: deliver, internal: pull, otherwise
 // alternating) so that most programs compile.
-func layoutPrograms(emit func(name, text string)) {
+func layoutPrograms(maxGroups, maxRoutes int, emit func(name, text string)) {
 	type group struct {
 		ch   string
 		wrap bool
@@ -100,11 +100,11 @@ func layoutPrograms(emit func(name, text string)) {
 		if len(seq) > 0 {
 			build(seq, routes)
 		}
-		if len(seq) == 3 {
+		if len(seq) == maxGroups {
 			return
 		}
 		for _, k := range kinds {
-			if routes+k.n <= 3 {
+			if routes+k.n <= maxRoutes {
 				rec(append(append([]group(nil), seq...), k), routes+k.n)
 			}
 		}
